@@ -187,6 +187,19 @@ def bounded(b):
                         want_idx = [per[i] for i in perm]
                         gi = [tuple(int(x) for x in r) for r in idxs]
                         b.case("roll/index_rows_designate_the_notes_cells_in_input_order", gi == [tuple(w) for w in want_idx], case, "index rows %r, expected %r" % (gi, want_idx))
+    # every time unit, named explicitly and inferred ("auto"), on arrays that carry only that unit
+    grid_notes = [(60, 0, 2, 64), (64, 1, 3, 70), (67, 4, 1, 30), (60, 6, 2, 90)]
+    for unit in ("beat", "quarter", "div", "sec", "tick"):
+        ftype = "i4" if unit in ("div", "tick") else "f4"
+        na = np.array(grid_notes, dtype=[("pitch", "i4"), ("onset_" + unit, ftype), ("duration_" + unit, ftype), ("velocity", "i4")])
+        for tu in (unit, "auto"):
+            case = {"time_unit": tu, "columns": unit}
+            ok, roll = b.guard("roll/no_exception", case, lambda: compute_pianoroll(na, time_unit=tu, time_div=2, remove_silence=False))
+            if ok:
+                M, N, cells, _ = raster(grid_notes, 2, False, False, -1, 0, False, False, None, False, True)
+                arr = roll.toarray()
+                got = {(int(r), int(c)): int(arr[r, c]) for r, c in zip(*np.nonzero(arr))}
+                b.case("roll/every_time_unit_named_or_inferred", arr.shape == (M, N) and got == cells, case, "shape %r (expected %r) or cells differ" % (arr.shape, (M, N)))
     # drum channel filtering
     for ch in ([0, 9, 1], [9, 9, 0], [10, 9, 15], [8, 11, 9]):
         notes = [(60, 0.0, 1.0, 64), (36, 0.0, 1.0, 100), (62, 1.0, 1.0, 70)]
